@@ -121,6 +121,13 @@ func routesFor(sc *Scn) string {
 		// two OR'ed matcher sets: the first fails with a matcher error on the client's bytes, the
 		// second would match them - matching ends by the error (fail closed), no handler runs
 		return `[{"match":[{"h_need":{"id":"strict","k":4,"err_on":"BAD!"}},{"h_need":{"id":"lax","k":1,"pat":"B"}}],"handle":[{"handler":"h_timed"}]}]`
+	case "noterr":
+		// a negated matcher that fails with a matcher error on the client's bytes: the error
+		// ends matching (fail closed), it is not a "did not match" to be negated
+		return `[{"match":[{"not":[{"h_need":{"id":"strict","k":4,"err_on":"BAD!"}}]}],"handle":[{"handler":"h_timed"}]}]`
+	case "notbig":
+		// a negated matcher that can never be decided within the buffer limit
+		return fmt.Sprintf(`[{"match":[{"not":[{"h_need":{"id":"big","k":%d}}]}],"handle":[{"handler":"h_timed"}]}]`, limit+5000)
 	case "und2":
 		// undecided even after one full prefetch chunk (client 'exact' sends exactly one)
 		return fmt.Sprintf(`[{"match":[{"h_need":{"id":"und2","k":%d}}],"handle":[{"handler":"h_timed"}]}]`, chunk+100)
@@ -411,14 +418,14 @@ func check(x *explore.Exec, sc *Scn, r *result) {
 		if noTimeDev && !handlerStarted {
 			x.Fail("decided-route-did-not-run", "the http route matches the complete HTTP/2 request, whose second half arrived a third of the matching timeout after the first, yet its handler never ran (abort: %q); %s", abortErr, desc())
 		}
-	case "errset":
+	case "errset", "noterr":
 		if handlerStarted {
 			x.Fail("handler-after-matcher-error", "a handler ran although matching ended by a matcher error (fail closed); %s", desc())
 		}
 		if abortAt < 0 {
 			x.Fail("matching-never-ended", "matching did not end although a matcher failed; %s", desc())
 		}
-	case "needbig", "eatbig", "httpbig":
+	case "needbig", "eatbig", "httpbig", "notbig":
 		if handlerStarted {
 			x.Fail("handler-after-buffer-full", "a handler ran although matching needs more than the buffer limit; %s", desc())
 		}
@@ -493,14 +500,14 @@ func scenarios(tier string, yield func(any) bool) {
 	for _, proto := range []string{"tcp", "udp"} {
 		for _, T := range timeouts {
 			for _, ph := range phases {
-				for _, routes := range []string{"undecided", "und2", "errset", "h2", "nonterm", "sub", "decide", "needbig", "eatbig", "httpbig", "fallthru"} {
+				for _, routes := range []string{"undecided", "und2", "errset", "h2", "nonterm", "sub", "decide", "needbig", "eatbig", "httpbig", "fallthru", "noterr", "notbig"} {
 					var clients []string
 					switch routes {
 					case "undecided":
 						clients = []string{"silent", "trickle", "eof"}
 					case "und2":
 						clients = []string{"exact"}
-					case "errset":
+					case "errset", "noterr":
 						clients = []string{"bad"}
 					case "h2":
 						clients = []string{"h2split"}
@@ -508,7 +515,7 @@ func scenarios(tier string, yield func(any) bool) {
 						clients = []string{"trickle"}
 					case "decide", "fallthru":
 						clients = []string{"late"}
-					case "needbig", "eatbig":
+					case "needbig", "eatbig", "notbig":
 						clients = []string{"flood"}
 					case "httpbig":
 						clients = []string{"httpflood"}
